@@ -1080,3 +1080,98 @@ class CompositionSuite(SystemSuite):
 
     def oracle_C01(self, case, out):
         return StartStopSuite.oracle_C01(self, case, out)
+
+
+# ============================================================================= C09: never ahead of a human
+def wait_session(rng, tier):
+    n = rng.choice([4, 5, 6, 6, 8])
+    spec = {"kind": "plain_hunt", "stage": n - rng.choice([0, 0, 1]), "custom": None}
+    nrows = rng.choice([4, 6, 8])
+    rows = probe_rows(spec, n, nrows)
+    humans = set(rng.sample(range(1, n + 1), rng.randint(1, n - 1)))
+    peal = rng.choice([150, 180, 200])
+    gap = 1.0
+    look_to = Fraction(rng.randint(15, 40), 100) + Fraction(1, 1000)
+    iv = blow_interval(peal, n)
+    start = look_to + 3
+    evs = [ev(0, "global", [True] * n), ev(Fraction(3, 100), "user_entered", 11, "Alice")]
+    for b in sorted(humans):
+        evs.append(ev(Fraction(5, 100) + Fraction(b, 10000), "assign", b, 11))
+    evs.append(ev(look_to, "call", "Look to"))
+    shift = Fraction(0)          # humans follow the band: later blows move with earlier hold-ups (roughly)
+    for r, row in enumerate(rows):
+        for p, bell in enumerate(row):
+            if bell not in humans:
+                continue
+            blow = r * n + p + (r // 2) * Fraction(gap)
+            t = start + shift + iv * blow
+            k = rng.random()
+            if k < 0.55:
+                t += iv * Fraction(rng.randint(-20, 20), 100)                  # roughly on time
+            elif k < 0.75:
+                late = Fraction(rng.choice([3, 13, 250, 900, 2500]), 1000)     # late by ms .. seconds
+                t += late
+                shift += late
+            elif k < 0.85:
+                t -= iv * Fraction(rng.randint(50, 250), 100)                  # early within / before the row
+            elif k < 0.92:
+                t -= iv * n                                                    # a whole row ahead
+            elif k < 0.97:
+                evs.append(ev(t + iv / 5 + Fraction(rng.randint(1, 99), 10 ** 6), "ring", bell))   # doubled
+            else:
+                continue                                                       # never rings: Wheatley must wait
+            t = max(t, look_to + Fraction(1, 50))
+            evs.append(ev(t + Fraction(rng.randint(1, 999), 10 ** 7), "ring", bell))
+    horizon = start + shift + iv * (nrows * n + nrows // 2) + Fraction(1, 3000)
+    rh = {"kind": "wait", "inertia": rng.choice([0.5, 1.0, 0.0]), "peal_speed": peal, "gap": gap, "max": 15,
+          "initial_inertia": 0}
+    return {"gen": spec, "udi": True, "stop_at_rounds": False, "call_comps": True, "name": None, "instance": None,
+            "rhythm": rh, "delta": fstr(rng.choice([0, Fraction(1, 1000)])), "horizon": fstr(horizon),
+            "events": sorted_events(evs), "oracle": {"humans": sorted(humans), "n": n}}
+
+
+class WaitSuite(SystemSuite):
+    name = "wait_for_humans"
+    fuel = 80000
+    coq_cap = {"quick": 60, "thorough": 600}
+
+    def scenarios(self, rng, tier):
+        for _ in range(200 if tier == "quick" else 2000):
+            yield wait_session(rng, tier)
+
+    def to_coq(self, case, out):
+        c = {k: v for k, v in case.items() if k != "oracle"}
+        return scenario_coq(c, out, self.fuel, self.tol, self.min_margin)
+
+    def run_impl(self, case):
+        c = {k: v for k, v in case.items() if k != "oracle"}
+        return sim.run_scenario(c, gens.build_impl_generator)
+
+    def oracle_C09(self, case, out):
+        if "trace" not in out:
+            return None
+        humans = set(case["oracle"]["humans"])
+        rings = sorted((Fraction(t), e[1]) for t, e in case["events"] if e[0] == "ring")
+        place_of = {}
+        for it in out["trace"]:
+            if it[1] == "r_wait":
+                place_of[(it[4], it[3])] = it[5]          # (row, bell) -> place
+        cur = None
+        for it in out["trace"]:
+            if it[1] == "r_wait":
+                cur = (it[4], it[5])
+            elif it[1] == "bell" and cur is not None:
+                t = Fraction(it[0])
+                row, place = cur
+                for h in humans:
+                    cnt = sum(1 for (tr, b) in rings if b == h and tr <= t)
+                    need = row + 1 if place_of.get((row, h), 10 ** 6) < place else row
+                    if cnt < need:
+                        return (f"Wheatley struck bell {it[2]} at place {place} of row {row} ({float(t):.3f}s) but human bell "
+                                f"{h} had rung only {cnt} time(s), {need} needed")
+        return None
+
+    def oracle_C10(self, case, out):
+        if "trace" in out and out["outcome"][0] == "crashed":
+            return f"main loop died: {out['outcome'][1:3]}"
+        return None
